@@ -24,6 +24,7 @@ CONSTANTS
     MaxSteps,
     ResetAnywhere, \* BOOLEAN: reset enabled in every phase (abandoned / failed / repeated episodes)
     ClockScope,  \* "process" (pinned code: the chain reads the process-wide contract clock) | "restored_on_entry"
+    Fractional,  \* BOOLEAN: the action space trades fractions of a contract (TRUE) or whole lots only
     RuinStep     \* "raise" (pinned code) | "done" (the property)
 
 \* gnow is the process-wide contract clock (AbstractContract.now): every notification of ANY environment of the
@@ -141,7 +142,7 @@ StepF(tgt) ==
         lclk == IF ClockScope = "process" THEN s1.gnow ELSE now1
         chainOk == "CH" \notin DOMAIN due \/ LeadOk(lclk)
         req == [alloc |-> IF chainOk THEN Resolved(due, lclk) ELSE <<>>, measure |-> "weight", thr |-> Thr,
-                fractional |-> TRUE, absolute |-> TRUE]
+                fractional |-> Fractional, absolute |-> TRUE]
         r   == RebalanceF(s1.st, req, AccrualTime(now1))
         executed == r.out = "ok"
         brokeNow == r.out = "broke"
